@@ -793,13 +793,24 @@ Definition is_nil {A} (l : list A) : bool := match l with [] => true | _ => fals
 Definition refutes (E : env) (ir : list stmt) (a : oracle) : bool :=
   andb (is_err (snd (exec E ir [] a))) (negb (is_nil (fst (exec E ir [] a)))).
 
-Definition refutable (E : env) (ir : list stmt) : bool := existsb (refutes E ir) (family ir).
+(* existsb that stops at the first hit under call-by-value evaluation *)
+Fixpoint find_first {A} (f : A -> bool) (l : list A) : bool :=
+  match l with [] => false | x :: r => if f x then true else find_first f r end.
+Lemma find_first_exists {A} (f : A -> bool) l : find_first f l = true -> exists x, In x l /\ f x = true.
+Proof.
+  induction l as [|x r IH]; cbn; [discriminate|].
+  destruct (f x) eqn:Ef.
+  - intros _. exists x. split; [left; reflexivity | exact Ef].
+  - intros H. destruct (IH H) as [y [Hy Hf]]. exists y. split; [right; exact Hy | exact Hf].
+Qed.
+
+Definition refutable (E : env) (ir : list stmt) : bool := find_first (refutes E ir) (family ir).
 
 Lemma refutable_sound E ir :
   refutable E ir = true ->
   exists a, is_err (snd (exec E ir [] a)) = true /\ fst (exec E ir [] a) <> [].
 Proof.
-  unfold refutable. rewrite existsb_exists. intros [a [_ H]]. exists a.
+  unfold refutable. intros Hf. destruct (find_first_exists _ _ Hf) as [a [_ H]]. exists a.
   unfold refutes in H. apply andb_true_iff in H. destruct H as [H1 H2]. split; [exact H1|].
   destruct (fst (exec E ir [] a)); [discriminate | discriminate].
 Qed.
@@ -850,4 +861,12 @@ Theorem table_atomic E tbl excl :
 Proof.
   intros Hf name ir s a Hin Hex Herr. apply checks_first_sound; [|exact Herr].
   eapply partial_of_failing; eassumption.
+Qed.
+
+Lemma assoc_In {A} k (l : list (string * A)) v : assoc k l = Some v -> In (k, v) l.
+Proof.
+  induction l as [|[k' v'] r IH]; cbn; [discriminate|].
+  destruct (String.eqb_spec k k') as [->|].
+  - intros H. inversion H. left. reflexivity.
+  - intros H. right. apply IH. exact H.
 Qed.
